@@ -96,6 +96,7 @@ type c36DB struct {
 	views    []c36View
 	triggers []c36Trigger
 	commit   bool // CALL dolt_commit('-Am', …) at the end of the build
+	bigRows  int  // > 0: an extra table `big_rows` with that many rows (the batched writer starts a new INSERT every 10000 rows)
 }
 
 func c36QuoteIdent(s string) string { return "`" + strings.ReplaceAll(s, "`", "``") + "`" }
@@ -340,7 +341,7 @@ func c36IntType(sp c36IntSpec) *c36Type {
 
 func c36FloatType(double bool) *c36Type {
 	t := &c36Type{class: "float", ddl: "float", family: "float", idxOK: true}
-	menu := []string{"0e0", "-0e0", "1.5e0", "-1.25e-5", "3.4028235e38", "-3.4028235e38", "1e-45", "1.17549435e-38", "0.1e0", "16777217e0", "123456.789e0", "1e15", "-1e0*0", "3.3333333e0", "1e-7", "9.999999e6", "1e7", "1e21"}
+	menu := []string{"0e0", "-0e0", "1.5e0", "-1.25e-5", "3.4028234e38", "-3.4028234e38", "1e-45", "1.17549435e-38", "0.1e0", "16777217e0", "123456.789e0", "1e15", "-1e0*0", "3.3333333e0", "1e-7", "9.999999e6", "1e7", "1e21"}
 	if double {
 		t.class, t.ddl = "double", "double"
 		menu = append(menu, "1.7976931348623157e308", "-1.7976931348623157e308", "4.9e-324", "2.2250738585072014e-308", "9007199254740993e0", "0.30000000000000004e0", "1e22", "1e-5", "123456789012345678e0")
@@ -350,6 +351,9 @@ func c36FloatType(double bool) *c36Type {
 		var tags []string
 		if strings.HasPrefix(s, "-0e0") || strings.HasPrefix(s, "-1e0*0") {
 			tags = append(tags, "float_negzero")
+		}
+		if !double && strings.HasSuffix(s, "3.4028234e38") {
+			tags = append(tags, "float32_max")
 		}
 		return c36Val{lit: s, tags: tags}
 	}
@@ -884,6 +888,7 @@ type c36Gate struct {
 	noEnumDefault  bool // C36-enum-set-default: no DEFAULT on ENUM/SET columns
 	noViewComment  bool // C36-view-trailing-comment: no view body ending in a "-- comment"
 	noEarlyYear    bool // C36-date-year-below-1000: no DATE/DATETIME value with a year in 0001..0999
+	noFloatMax     bool // C36-float-max: no FLOAT value ±3.4028234e38 (the largest float32)
 	excluded       int
 }
 
@@ -897,6 +902,9 @@ func c36GenDB(rt *rapid.T, g *c36Gate) *c36DB {
 	c36GenViews(rt, db, g)
 	c36GenTriggers(rt, db, g)
 	db.commit = rapid.IntRange(0, 3).Draw(rt, "commit") == 0
+	if rapid.IntRange(0, 13).Draw(rt, "bigtable") == 0 {
+		db.bigRows = []int{10000, 10001, 9999, 20001, 12345}[rapid.IntRange(0, 4).Draw(rt, "bigrows")]
+	}
 	return db
 }
 
@@ -1127,6 +1135,10 @@ func c36GenRows(rt *rapid.T, label string, t *c36Table, g *c36Gate) {
 					v.lit = strings.Replace(v.lit, "'0001-", "'1001-", 1)
 					v.key = strings.Replace(v.key, ":0001-", ":1001-", 1)
 					v.tags = nil
+				}
+				if g.noFloatMax && c36HasTag(v.tags, "float32_max") {
+					g.excluded++
+					v = c36Val{lit: "3.4028233e38"}
 				}
 				if g.noYearZero && c36HasTag(v.tags, "year_zero") {
 					g.excluded++
@@ -1368,6 +1380,11 @@ func (db *c36DB) buildScript() string {
 			fmt.Fprintf(&b, "DELETE FROM %s WHERE `pk` = %d;\n", c36QuoteIdent(t.name), len(t.rows))
 		}
 	}
+	if db.bigRows > 0 {
+		b.WriteString("CREATE TABLE `big_rows` (`n` int PRIMARY KEY, `s` varchar(40), `b` varbinary(8), KEY `ks` (`s`));\n")
+		b.WriteString("INSERT INTO `big_rows` WITH dg(d) AS (SELECT 0 UNION ALL SELECT 1 UNION ALL SELECT 2 UNION ALL SELECT 3 UNION ALL SELECT 4 UNION ALL SELECT 5 UNION ALL SELECT 6 UNION ALL SELECT 7 UNION ALL SELECT 8 UNION ALL SELECT 9) " +
+			"SELECT n, CONCAT('it''s\\\\', n, ');'), UNHEX(LPAD(HEX(n),8,'0')) FROM (SELECT a.d+10*b.d+100*c.d+1000*d.d+10000*e.d AS n FROM dg a, dg b, dg c, dg d, dg e) x WHERE n < " + fmt.Sprint(db.bigRows) + ";\n")
+	}
 	for _, v := range db.views {
 		b.WriteString(v.sql + "\n;\n") // the newline ends a trailing "-- comment" of the view body
 	}
@@ -1409,6 +1426,12 @@ func (db *c36DB) fingerprintScript() (string, []string) {
 			exprs = append(exprs, c.typ.obs(q)...)
 		}
 		fmt.Fprintf(&b, "SELECT %s FROM %s;\n", strings.Join(exprs, ", "), c36QuoteIdent(t.name))
+	}
+	if db.bigRows > 0 {
+		mark("schema of big_rows")
+		b.WriteString("SHOW CREATE TABLE `big_rows`;\n")
+		mark("rows of big_rows")
+		b.WriteString("SELECT CAST(`n` AS CHAR), HEX(`s`), HEX(`b`) FROM `big_rows`;\n")
 	}
 	if len(db.views)+len(db.triggers) > 0 {
 		mark("views and triggers")
@@ -1492,6 +1515,13 @@ func (db *c36DB) summary() (string, map[string]bool) {
 	}
 	if db.commit {
 		classes["committed"] = true
+	}
+	if db.bigRows > 0 {
+		classes["rows>=10000"] = true
+		if db.bigRows > 10000 {
+			classes["rows>batch_size"] = true
+		}
+		parts = append(parts, fmt.Sprintf("big_rows[rows=%d]", db.bigRows))
 	}
 	sort.Strings(parts)
 	return fmt.Sprintf("tables=%s views=%d triggers=%d", strings.Join(parts, " "), len(db.views), len(db.triggers)), classes
